@@ -17,7 +17,7 @@ from vv.core import Result, exc_violation, innermost_is_harness, Violation
 from vv.util import deq
 
 ID = 'C13'
-CASES = {'quick': 30, 'thorough': 500}
+CASES = {'quick': 60, 'thorough': 2500}
 SHARDS = {'quick': 8, 'thorough': 16}
 HANG_IS_VIOLATION = True
 CASE_TIMEOUT = 20
@@ -91,10 +91,12 @@ def strategy_(draw, tier):
     if not par and spec['residents']:
         par.append(sorted(spec['residents'])[0])
     # a mother holding a ParallelProcess cannot be divided by copying
-    holders = {k.split('/')[1] for k in par if '/' in k} | \
-        {k[4:] for k in par if k.startswith('gen:')}
+    holders = {k.split('/')[1] for k in par if '/' in k}
     for b in spec['ticks']:
         for op in b:
+            if op.get('resident') and op['resident'].get('parallel'):
+                holders.add(op.get('key'))
+                holders.update(op.get('daughters', []))
             if op['op'] == 'divide' and not op['explicit'] and \
                     op['mother'] in holders:
                 op['explicit'] = True
@@ -385,8 +387,12 @@ def classify(spec, res):
             nt = True
             res.label('parallel.multi_timestep')
     else:
-        holders = {k.split('/')[1] for k in spec['parallel'] if '/' in k} | \
-            {k[4:] for k in spec['parallel'] if k.startswith('gen:')}
+        holders = {k.split('/')[1] for k in spec['parallel'] if '/' in k}
+        for b in spec['ticks']:
+            for op in b:
+                if op.get('resident') and op['resident'].get('parallel'):
+                    holders.add(op.get('key'))
+                    holders.update(op.get('daughters', []))
         for b in spec['ticks']:
             for op in b:
                 key = op.get('key') or op.get('mother')
